@@ -99,8 +99,19 @@ def unmerged_fork_tail_duplicated(d, jobs, ctx):
 
 @predicate
 def loop_body_ends_in_fork(d):
-    """some loop's body ends with an AND/OR fork"""
-    return any(n[0] == "loop" and n[1][1] and n[1][1][-1][0] in ("and", "or") for n in _walk(d))
+    """some loop's body ends (in tail position, i.e. also through the branches of a final XOR) with an AND/OR fork"""
+    return any(n[0] == "loop" and any(t[0] in ("and", "or") for t in _tails_xor(n[1])) for n in _walk(d))
+
+
+@predicate
+def loop_ending_in_fork_ends_and_branch(d):
+    """some AND fork has a branch whose last item is a loop whose body ends (tail position) with an AND/OR fork"""
+    for n in _walk(d):
+        if n[0] == "and":
+            for b in n[1]:
+                if b[1] and b[1][-1][0] == "loop" and any(t[0] in ("and", "or") for t in _tails_xor(b[1][-1][1])):
+                    return True
+    return False
 
 
 def _tails(seq):
@@ -126,3 +137,16 @@ def loop_with_break_ends_enclosing_loop_body(d):
                 return True
         return False
     return any(n[0] == "loop" and ends_with_breaking_loop(n[1]) for n in _walk(d))
+
+
+def _tails_xor(seq):
+    """items in tail position of a sequence, looking through a final XOR only (an AND/OR fork is itself a tail)"""
+    if not seq[1]:
+        return []
+    last = seq[1][-1]
+    if last[0] == "xor":
+        out = []
+        for b in last[1]:
+            out.extend(_tails_xor(b))
+        return out
+    return [last]
